@@ -56,6 +56,15 @@ class MachineryError(Exception):
     pass
 
 
+def _die_with_parent():
+    """PR_SET_PDEATHSIG(SIGKILL): a worker (and, transitively, its own workers) never outlives its parent."""
+    try:
+        import ctypes
+        ctypes.CDLL(None, use_errno=True).prctl(1, int(signal.SIGKILL), 0, 0, 0)
+    except Exception:
+        pass
+
+
 def fork_map(fn, items, nproc=NPROC, timeout=120.0, on_result=None):
     """Run fn(item) for every item, each in a freshly forked child (full isolation of
     monkey-patches, signal handlers, module state). Returns list of results in order.
@@ -73,6 +82,7 @@ def fork_map(fn, items, nproc=NPROC, timeout=120.0, on_result=None):
         if pid == 0:
             code = 0
             try:
+                _die_with_parent()
                 os.close(r)
                 # own process group so that stray kills stay local
                 try:
